@@ -473,3 +473,333 @@ def all_findings(cases, impl):
     f += oracle_ctor(cases, impl)
     f += oracle_values(cases, impl)
     return f
+
+
+# ---------------------------------------------------------------- C07: cost optimum of the Revolve family
+def stream_cost_vector(tr):
+    fwd = dw = dr = 0
+    for a, _ in actions_of(tr):
+        p = parse_action(a)
+        if p[0] == "F":
+            fwd += p[2] - p[1]
+            if p[5] == "DISK" and (p[3] or p[4]):
+                dw += 1
+        elif p[0] in ("C", "M"):
+            if p[2] == "DISK":
+                dr += 1
+            if p[3] == "DISK":
+                dw += 1
+    return fwd, dw, dr
+
+
+class CleanDP:
+    """the three cost recurrences written from the papers (costs in their documented roles); l = N - 1"""
+    def __init__(self, uf, ub, wd, rd):
+        self.uf, self.ub, self.wd, self.rd = uf, ub, wd, rd
+        self._o0 = {}
+        self._oi = {}
+        self._h = {}
+
+    def opt0(self, m, l):
+        if l == 0:
+            return self.ub
+        if m == 0:
+            return float("inf")
+        if l == 1:
+            return self.uf + 2 * self.ub
+        if m == 1:
+            return (l + 1) * self.ub + l * (l + 1) // 2 * self.uf
+        k = (m, l)
+        if k not in self._o0:
+            self._o0[k] = min(j * self.uf + self.opt0(m - 1, l - j) + self.opt0(m, j - 1) for j in range(1, l))
+        return self._o0[k]
+
+    def optinf(self, cm, l):
+        if l == 0:
+            return self.ub
+        if l == 1:
+            return self.uf + 2 * self.ub if cm > 0 else self.wd + self.uf + 2 * self.ub + self.rd
+        k = (cm, l)
+        if k not in self._oi:
+            self._oi[k] = min(self.opt0(cm, l), min(self.wd + j * self.uf + self.optinf(cm, l - j) + self.rd + self.opt0(cm, j - 1)
+                                                   for j in range(1, l)))
+        return self._oi[k]
+
+    # H-Revolve, K = 2 levels (RAM: w = r = 0; DISK: wd, rd), c = (c0, c1).  optp: x_0 already stored in level k.
+    def hopt(self, c0, c1, k, l, m, primed):
+        w = (0, self.wd)
+        r = (0, self.rd)
+        cv = (c0, c1)
+        inf = float("inf")
+        key = (c0, c1, k, l, m, primed)
+        if key in self._h:
+            return self._h[key]
+        if l == 0:
+            v = self.ub
+        elif k == 0 and m == 0:
+            v = inf
+        elif l == 1:
+            v = self.uf + 2 * self.ub + r[0] + (0 if primed else w[0])
+        elif k == 0:
+            if m == 1:
+                vp = (l + 1) * self.ub + l * (l + 1) // 2 * self.uf + l * r[0]
+            else:
+                vp = min([j * self.uf + self.hopt(c0, c1, 0, l - j, m - 1, False) + r[0] + self.hopt(c0, c1, 0, j - 1, m, True)
+                          for j in range(1, l)] + [self.hopt(c0, c1, 0, l, 1, True)])
+            v = vp if primed else w[0] + vp
+        else:
+            lower = self.hopt(c0, c1, k - 1, l, cv[k - 1], False)
+            if m == 0:
+                v = inf if primed else lower
+            else:
+                vp = min([lower] + [j * self.uf + self.hopt(c0, c1, k, l - j, m - 1, False) + r[k] + self.hopt(c0, c1, k, j - 1, m, True)
+                                    for j in range(1, l)])
+                v = vp if primed else min(lower, w[k] + vp)
+        self._h[key] = v
+        return v
+
+
+def oracle_costs(cases, impl):
+    out = []
+    dps = {}
+    costs = {}          # (kind, N, r, d, costvec) -> cost
+    lines = {}
+    import sys
+    sys.setrecursionlimit(20000)
+    for line in cases:
+        if not line.startswith("S stream."):
+            continue
+        info = case_info(line)
+        if info["cls"] != "rev":
+            continue
+        tr = impl.get(info["cid"])
+        if not tr or tr[0].startswith("CTOR"):
+            continue
+        acts = [a for a, _ in actions_of(tr)]
+        if not acts or acts[-1] != "ER" or any(l.startswith("N EXC") for l in tr):
+            continue
+        kind = info["ps"][1]
+        N, r, d, uf, ub, wd, rd = (int(x) for x in info["ps"][2:9])
+        if N > 60:
+            continue
+        fwd, dw, dr = stream_cost_vector(tr)
+        cost = uf * fwd + ub * N + wd * dw + rd * dr
+        key = (uf, ub, wd, rd)
+        dp = dps.setdefault(key, CleanDP(uf, ub, wd, rd))
+        l = N - 1
+        want = None
+        if kind == "revolve":
+            want = dp.opt0(r, l)
+        elif kind == "disk":
+            want = dp.optinf(r, l)
+        elif kind == "hrevolve":
+            want = dp.hopt(r, d, 1, l, d, False)
+        # the papers count the stored (taped) forward step inside ub: the stream performs N such steps
+        if want is not None and want != float("inf") and cost != want + N * uf:
+            out.append(fail("C07", info, line, "stream cost %d (fwd=%d, rev=%d, disk writes=%d, disk reads=%d) but the optimum is %d"
+                            % (cost, fwd, N, dw, dr, want + N * uf), "cost"))
+        costs[(kind, N, r, d if kind == "hrevolve" else 0, key)] = cost
+        lines[(kind, N, r, d if kind == "hrevolve" else 0, key)] = (info, line)
+    for (kind, N, r, d, key), cost in costs.items():
+        info, line = lines[(kind, N, r, d, key)]
+        if kind == "hrevolve" and ("hrevolve", N, r, d + 1, key) in costs and costs[("hrevolve", N, r, d + 1, key)] > cost:
+            out.append(fail("C07", info, line, "cost with %d disk units is %d, with %d it is %d" % (d, cost, d + 1, costs[("hrevolve", N, r, d + 1, key)]), "mono_d"))
+        if kind == "disk" and ("revolve", N, r, 0, key) in costs and cost > costs[("revolve", N, r, 0, key)]:
+            out.append(fail("C07", info, line, "cost(DiskRevolve) %d > cost(Revolve) %d" % (cost, costs[("revolve", N, r, 0, key)]), "disk_le_rev"))
+        if kind == "periodic" and ("disk", N, r, 0, key) in costs and cost < costs[("disk", N, r, 0, key)]:
+            out.append(fail("C07", info, line, "cost(PeriodicDiskRevolve) %d < cost(DiskRevolve) %d" % (cost, costs[("disk", N, r, 0, key)]), "periodic_ge_disk"))
+    return out
+
+
+# ---------------------------------------------------------------- C13: TwoLevel
+def oracle_twolevel(cases, impl):
+    out = []
+    for line in cases:
+        if not line.startswith("S stream.twolevel"):
+            continue
+        info = case_info(line)
+        tr = impl.get(info["cid"])
+        if not tr or tr[0].startswith("CTOR"):
+            continue
+        P, b, bst = int(info["ps"][1]), int(info["ps"][2]), info["ps"][3]
+        N = info["N"]
+        acts = [parse_action(a) for a, _ in actions_of(tr)]
+        if ("EF",) not in acts:
+            continue
+        iEF = acts.index(("EF",))
+        want = [("F", k * P, (k + 1) * P, True, False, "DISK") for k in range(-(-N // P))]
+        if acts[:iEF] != want:
+            out.append(fail("C13", info, line, "forward phase is %r, expected periodic DISK checkpoints every %d steps" % (acts[:iEF][:4], P), "forward"))
+            continue
+        passes, cur = [], []
+        for a in acts[iEF + 1:]:
+            cur.append(a)
+            if a == ("ER",):
+                passes.append(cur)
+                cur = []
+        bad = None
+        for pi, ps in enumerate(passes):
+            per_block = {}
+            for a in ps:
+                if a[0] == "F":
+                    blk = a[1] // P
+                    per_block[blk] = per_block.get(blk, 0) + (a[2] - a[1])
+                    if a[3] and a[5] != bst:
+                        bad = "pass %d: extra restart checkpoint of step %d written to %s, binomial storage is %s" % (pi + 1, a[1], a[5], bst)
+            for blk in range(-(-N // P)):
+                L = min((blk + 1) * P, N) - blk * P
+                wantb = L + gw_extra(L, b + 1)
+                if per_block.get(blk, 0) != wantb and bad is None:
+                    bad = "pass %d: block [%d,%d) recomputed with %d forward steps, binomial optimum for %d steps and %d units is %d" % (
+                        pi + 1, blk * P, blk * P + L, per_block.get(blk, 0), L, b + 1, wantb)
+        if bad:
+            out.append(fail("C13", info, line, bad, "blocks"))
+    return out
+
+
+# ---------------------------------------------------------------- C14: Multistage split
+def oracle_split(cases, impl):
+    out = []
+    groups = {}
+    for line in cases:
+        if not line.startswith("S stream.multistage"):
+            continue
+        info = case_info(line)
+        tr = impl.get(info["cid"])
+        if not tr or tr[0].startswith("CTOR"):
+            continue
+        N, ram, disk, tj = int(info["ps"][1]), int(info["ps"][2]), int(info["ps"][3]), info["ps"][4]
+        acts = [parse_action(a) for a, _ in actions_of(tr)]
+        if not acts or acts[-1] != ("ER",):
+            continue
+        s = min(min(ram, N - 1) + min(disk, N - 1), N - 1)
+        erased = [tuple("*" if (isinstance(x, str) and x in ("RAM", "DISK")) else x for x in a) for a in acts]
+        groups.setdefault((N, s, tj), []).append((info, line, erased))
+        # per stack position: storage and access counts
+        depth = -1
+        lab = {}
+        weight = {}
+        bad = None
+        for a in acts:
+            if a[0] == "F" and a[3]:
+                depth += 1
+                if lab.setdefault(depth, a[5]) != a[5]:
+                    bad = "stack position %d is written to %s after having been %s" % (depth, a[5], lab[depth])
+                weight[depth] = weight.get(depth, 0) + 1
+            elif a[0] in ("C", "M"):
+                if lab.get(depth) != a[2]:
+                    bad = "stack position %d read from %s but written to %s" % (depth, a[2], lab.get(depth))
+                weight[depth] = weight.get(depth, 0) + 1
+                if a[0] == "M":
+                    depth -= 1
+        nram = sum(1 for v in lab.values() if v == "RAM")
+        if bad is None and nram > min(ram, max(N - 1, 0)):
+            bad = "%d stack positions are labelled RAM, %d RAM units were declared" % (nram, ram)
+        if bad is None:
+            disk_traffic = sum(w for dpt, w in weight.items() if lab[dpt] == "DISK")
+            k = min(min(ram, max(N - 1, 0)), len(weight))
+            best = sum(weight.values()) - sum(sorted(weight.values(), reverse=True)[:k])
+            if disk_traffic != best:
+                bad = "DISK accesses %d, minimum over all assignments of %d positions to RAM is %d" % (disk_traffic, k, best)
+        if bad:
+            out.append(fail("C14", info, line, bad, "split"))
+    for key, lst in groups.items():
+        for info, line, er in lst[1:]:
+            if er != lst[0][2]:
+                out.append(fail("C14", info, line, "stream differs from the stream of %s by more than storage labels" % " ".join(lst[0][0]["ps"]), "labels_only"))
+                break
+    return out
+
+
+# ---------------------------------------------------------------- C16: both Mixed planner paths
+def oracle_paths(cases, impl):
+    out = []
+    seen = {}
+    for line in cases:
+        if not line.startswith("S "):
+            continue
+        info = case_info(line)
+        if info["cls"] != "mixed":
+            continue
+        tr = impl.get(info["cid"])
+        if tr is None:
+            continue
+        key = (tuple(info["ps"][1:4]), tuple(info["ops"]), info["cid"].split(":")[0])
+        acts = [l.split(" | ")[0] for l in tr if l.startswith("N ") or l.startswith("CTOR")]
+        if key in seen and seen[key][0] != info["ps"][4]:
+            if seen[key][1] != acts:
+                out.append(fail("C16", info, line, "stream on the %s path differs from the %s path" % (info["ps"][4], seen[key][0]), "paths"))
+        else:
+            seen[key] = (info["ps"][4], acts)
+    return out
+
+
+# ---------------------------------------------------------------- C19: PeriodicDiskRevolve
+def oracle_periodic(cases, impl):
+    out = []
+    for line in cases:
+        if not line.startswith("S stream.periodic"):
+            continue
+        info = case_info(line)
+        tr = impl.get(info["cid"])
+        if not tr or tr[0].startswith("CTOR"):
+            continue
+        N, r, d, uf, ub, wd, rd = (int(x) for x in info["ps"][2:9])
+        acts = [parse_action(a) for a, _ in actions_of(tr)]
+        if not acts or acts[-1] != ("ER",) or ("EF",) not in acts:
+            continue
+        t = 0
+        while beta(r + 1, t) * uf <= wd + rd:
+            t += 1
+        m = beta(r, t)
+        iEF = acts.index(("EF",))
+        writes = [a[1] for a in acts[:iEF] if a[0] == "F" and a[5] == "DISK"]
+        want = []
+        j = 0
+        while (N - 1) - j * m > m:
+            want.append(j * m)
+            j += 1
+        bad = None
+        if writes != want:
+            bad = "disk checkpoints of the forward sweep at %r, expected %r (period %d)" % (writes, want, m)
+        late = [a for a in acts[iEF:] if (a[0] == "F" and a[5] == "DISK") or (a[0] in ("C", "M") and a[3] == "DISK")]
+        if bad is None and late:
+            bad = "DISK written after EndForward: %r" % (late[0],)
+        reads = {}
+        for a in acts:
+            if a[0] in ("C", "M") and a[2] == "DISK":
+                reads[a[1]] = reads.get(a[1], 0) + 1
+        if bad is None and (sorted(reads) != sorted(want) or any(v != 1 for v in reads.values())):
+            bad = "disk checkpoints read %r, each of %r should be read exactly once" % (reads, want)
+        if bad is None and N <= 60:
+            # each segment is reversed with the memory-only Revolve optimum: the disk segments [j m, (j+1) m) are
+            # recomputed in full after EndForward; the final segment [k m, N) was swept (and its last step taped) before it
+            k = len(want)
+            segs = [(j * m, (j + 1) * m) for j in range(k)] + [(k * m, N)]
+            fw = {}
+            for a in acts[iEF:]:
+                if a[0] == "F":
+                    seg = min(a[1] // m, k)
+                    fw[seg] = fw.get(seg, 0) + (a[2] - a[1])
+            for i, (a0, b0) in enumerate(segs):
+                L = b0 - a0
+                wantf = (L + gw_extra(L, r)) - (L if i == k else 0)
+                if fw.get(i, 0) != wantf:
+                    bad = "segment [%d,%d) recomputed with %d forward steps after EndForward, Revolve optimum gives %d" % (a0, b0, fw.get(i, 0), wantf)
+                    break
+        if bad:
+            out.append(fail("C19", info, line, bad, "periodic"))
+    return out
+
+
+_base_all_findings = all_findings
+
+
+def all_findings(cases, impl):  # noqa: F811
+    f = _base_all_findings(cases, impl)
+    f += oracle_costs(cases, impl)
+    f += oracle_twolevel(cases, impl)
+    f += oracle_split(cases, impl)
+    f += oracle_paths(cases, impl)
+    f += oracle_periodic(cases, impl)
+    return f
